@@ -186,7 +186,16 @@ def gen_bracket(rng: random.Random, tier: str):
                "a": round(rng.uniform(-2, 2), 3), "b": round(rng.uniform(-2, 2), 3),
                # Gaussian pre-smoothing of the differentiated field (logv's default is sigma=1): still one linear
                # derivative family D for both arguments, so C13_bracket_* apply
-               "sigma": rng.choice([None, None, 0.7, 1.0])}
+               "sigma": rng.choice([None, None, 0.7, 1.0]),
+               # explicit grid spacing (scalar or per axis), forwarded to BOTH Jacobians: still one derivative family
+               "spacing": rng.choice([None, None, 0.5, "per-axis"])}
+
+
+def _spacing_kw(c):
+    sp = c.get("spacing")
+    if sp is None:
+        return {}
+    return {"spacing": tuple(0.25 * (k + 1) for k in range(c["d"])) if sp == "per-axis" else sp}
 
 
 def check_bracket(c):
@@ -195,6 +204,7 @@ def check_bracket(c):
     kw = dict(mode=c["mode"]) if c["mode"] else {}
     if c.get("sigma"):
         kw["sigma"] = c["sigma"]
+    kw.update(_spacing_kw(c))
     lb = lambda p, q: U.lie_bracket(p, q, **kw)
     a, b = c["a"], c["b"]
     tol = 1e-9
@@ -214,7 +224,7 @@ def gen_bch(rng: random.Random, tier: str):
         d = rng.choice([2, 3])
         shape = [rng.randint(5, 8) for _ in range(d)]
         yield {"d": d, "shape": shape, "seed": rng.randrange(1 << 30), "kind": rng.choice(["const", "parallel", "same-axis"]),
-               "sigma": rng.choice([None, None, 0.7, 1.0]),
+               "sigma": rng.choice([None, None, 0.7, 1.0]), "spacing": rng.choice([None, None, 0.5, "per-axis"]),
                "cu": [round(rng.uniform(-0.2, 0.2), 3) for _ in range(d)], "cv": [round(rng.uniform(-0.2, 0.2), 3) for _ in range(d)]}
 
 
@@ -235,7 +245,8 @@ def check_bch(c):
         u[0, 0] = c["cu"][0] * torch.sin(2 * x[..., 1])
         v[0, 0] = c["cv"][0] * torch.cos(3 * x[..., 1])
     kw = {"sigma": c["sigma"]} if c.get("sigma") else {}
-    if U.lie_bracket(v, u).abs().max() > 1e-12:
+    kw.update(_spacing_kw(c))
+    if U.lie_bracket(v, u, **kw).abs().max() > 1e-12:
         return None  # not exactly commuting under this stencil: outside the hypothesis
     for k in range(0, 6):
         w = U.compose_svfs(u, v, bch_terms=k, **kw)
